@@ -36,7 +36,7 @@ pub fn gen_layer(r: &mut Rng, layer_id: usize, depth: usize, special: bool) -> B
         let s = match r.below(10) {
             0..=3 => Spec::File { data: format!("L{}:{}:{}", layer_id, n, r.below(1000)).into_bytes(), perm: *r.pick(&[0o644u32, 0o600, 0o755, 0o640]) },
             4..=6 if depth < 2 => Spec::Dir {
-                perm: *r.pick(&[0o755u32, 0o700, 0o775]),
+                perm: *r.pick(&[0o755u32, 0o700, 0o775, 0o1777]), // incl. a sticky directory (a /tmp of a container image)
                 opaque: if special && r.chance(1, 4) { Some(*r.pick(&["user.fuseoverlayfs.opaque", "trusted.overlay.opaque", "user.overlay.opaque"])) } else { None },
                 children: gen_layer(r, layer_id, depth + 1, special),
             },
